@@ -772,6 +772,90 @@ def cfg (ws : List String) : Option PwState :=
 
 end PwDrv
 
+/-! ### `sm …`: the semaphore model `Sem` alone, against the real `tokio::sync::Semaphore`
+(harness `h-sem`): every API call is one line, the answer is the observation after it -/
+
+namespace SmDrv
+
+structure SmState where
+  sem : Sem
+  /-- ids whose `Acquire` future exists and is pending, ascending -/
+  pending : List Nat := []
+  /-- ids that hold a permit obtained by `acquire` -/
+  held : List Nat := []
+  /-- permits obtained by `try_acquire` -/
+  tried : Nat := 0
+
+def insertSorted (x : Nat) : List Nat → List Nat
+  | [] => [x]
+  | y :: ys => if x < y then x :: y :: ys else if x = y then y :: ys else y :: insertSorted x ys
+
+def obs (st : SmState) (res : String) : String :=
+  let woken := st.pending.filter fun i =>
+    st.sem.assigned.contains i || (st.sem.closed && !st.sem.queue.contains i)
+  s!"smobs res={res} permits={st.sem.permits} closed={if st.sem.closed then 1 else 0} " ++
+  s!"woken=[{",".intercalate (woken.map toString)}]"
+
+def cfg (ws : List String) : Option SmState :=
+  match ws with
+  | [kv] =>
+    match kv.splitOn "=" with
+    | ["permits", n] => n.toNat?.map fun n => { sem := Sem.new n }
+    | _ => none
+  | _ => none
+
+def handle (st : SmState) (ws : List String) : SmState × String :=
+  match ws with
+  | ["poll", i] =>
+    match i.toNat? with
+    | some i =>
+      if st.held.contains i then (st, "reject") else
+      let (sem, r) := st.sem.pollAcquire i
+      match r with
+      | .pending => let st' := { st with sem := sem, pending := insertSorted i st.pending }; (st', obs st' "pending")
+      | .ok => let st' := { st with sem := sem, pending := st.pending.erase i, held := i :: st.held }; (st', obs st' "ok")
+      | .closed => let st' := { st with sem := sem, pending := st.pending.erase i }; (st', obs st' "closed")
+    | none => (st, "bad-op")
+  | ["drop", i] =>
+    match i.toNat? with
+    | some i =>
+      if !st.pending.contains i then (st, "reject") else
+      let st' := { st with sem := st.sem.dropAcquire i, pending := st.pending.erase i }
+      (st', obs st' "-")
+    | none => (st, "bad-op")
+  | ["release", i] =>
+    match i.toNat? with
+    | some i =>
+      if !st.held.contains i then (st, "reject") else
+      let st' := { st with sem := st.sem.addPermits 1, held := st.held.erase i }
+      (st', obs st' "-")
+    | none => (st, "bad-op")
+  | ["forget", i] =>
+    match i.toNat? with
+    | some i =>
+      if !st.held.contains i then (st, "reject") else
+      let st' := { st with held := st.held.erase i }
+      (st', obs st' "-")
+    | none => (st, "bad-op")
+  | ["try"] =>
+    let (sem, r) := st.sem.tryAcquire
+    match r with
+    | .ok => let st' := { st with sem := sem, tried := st.tried + 1 }; (st', obs st' "ok")
+    | .noPermits => let st' := { st with sem := sem }; (st', obs st' "nopermits")
+    | .closed => let st' := { st with sem := sem }; (st', obs st' "closed")
+  | ["untry"] =>
+    if st.tried = 0 then (st, "reject") else
+    let st' := { st with sem := st.sem.addPermits 1, tried := st.tried - 1 }
+    (st', obs st' "-")
+  | ["add", k] =>
+    match k.toNat? with
+    | some k => let st' := { st with sem := st.sem.addPermits k }; (st', obs st' "-")
+    | none => (st, "bad-op")
+  | ["close"] => let st' := { st with sem := st.sem.close }; (st', obs st' "-")
+  | _ => (st, "bad-op")
+
+end SmDrv
+
 structure DState where
   managed : Option State := none
   unmanaged : Option U.State := none
@@ -779,6 +863,7 @@ structure DState where
   sp : Option SpDrv.SpState := none
   rp : Option RR.Pool := none
   pw : Option PwDrv.PwState := none
+  sm : Option SmDrv.SmState := none
 
 def handle (d : DState) (line : String) : DState × Option String :=
   let ws := (line.trimAscii.toString.splitOn " ").filter (· ≠ "")
@@ -815,6 +900,15 @@ def handle (d : DState) (line : String) : DState × Option String :=
     match d.pw with
     | some st => let (st', out) := PwDrv.handle st rest; ({ d with pw := some st' }, some out)
     | none => (d, some "bad-op")
+  | "sm" :: "cfg" :: rest =>
+    match SmDrv.cfg rest with
+    | some st => ({ d with sm := some st }, none)
+    | none => (d, some "bad-cfg")
+  | "sm" :: rest =>
+    match d.sm with
+    | some st => let (st', out) := SmDrv.handle st rest; ({ d with sm := some st' }, some out)
+    | none => (d, some "bad-op")
+  | "smobs" :: _ => (d, none)
   | "pwobs" :: _ => (d, none)
   | "pwx" :: _ => (d, none)
   | "rpobs" :: _ => (d, none)
